@@ -189,6 +189,54 @@ func VerifUpdateStep() {
 		prevRaw, hadPrev = prevs[li], stored[li]
 	}
 
+	// ---- replayable cover witnesses: named facts from which the native replay
+	// (native/internal/witness TestReplayCovers) rebuilds real keys, notes, trees and proofs ----
+	if rt.Param("replay", 1) == 1 {
+		kind := verifKind(uerr)
+		var outKind uint64 // 0 nil, 1 the stored checkpoint (on a refusal), 2 the cosigned result of an accept, 3 anything else
+		if out != nil {
+			switch {
+			case accepted:
+				outKind = 2
+			case hadPrev && rt.Eq(out, prevRaw):
+				outKind = 1
+			default:
+				outKind = 3
+			}
+		}
+		rt.Name("r.known", known)
+		rt.Name("r.stored", hadPrev)
+		rt.Name("r.oldSize", oldSize)
+		rt.Name("r.proofLen", uint64(len(proof)))
+		rt.Name("r.kind", kind)
+		rt.Name("r.outKind", outKind)
+		small := oldSize <= 12
+		if known {
+			rt.Name("r.nextValid", rt.Valid(nextRaw, c.origins[li], c.keys[li], nil))
+			rt.Name("r.nextSize", rt.CpSize(nextRaw))
+			small = small && rt.CpSize(nextRaw) <= 9 && rt.SigLines(nextRaw) <= 3
+			if hadPrev {
+				rt.Name("r.prevValid", rt.Valid(prevRaw, c.origins[li], c.keys[li], nil))
+				rt.Name("r.prevSize", rt.CpSize(prevRaw))
+				rt.Name("r.sameRoot", rt.Eq(rt.CpHash(nextRaw), rt.CpHash(prevRaw)))
+				rt.Name("r.vcOK", rt.VCVerdict(rt.CpSize(prevRaw), rt.CpSize(nextRaw), len(proof), verifProofTerm(proof), rt.CpHash(prevRaw), rt.CpHash(nextRaw)))
+				small = small && rt.CpSize(prevRaw) <= 9 && rt.SigLines(prevRaw) <= 5
+			}
+		}
+		noSignFail := rt.Count("SignFail") == 0
+		rt.Cover(small && !known, "replay/unknown-log")
+		rt.Cover(small && uerr == ErrNoValidSignature, "replay/bad-signature")
+		rt.Cover(small && noSignFail && accepted && !hadPrev, "replay/first-use")
+		rt.Cover(small && noSignFail && accepted && hadPrev && rt.CpSize(nextRaw) > rt.CpSize(prevRaw), "replay/growth")
+		rt.Cover(small && noSignFail && accepted && hadPrev && rt.CpSize(nextRaw) == rt.CpSize(prevRaw), "replay/refresh")
+		rt.Cover(small && uerr == ErrOldSizeInvalid, "replay/old-size-invalid")
+		rt.Cover(small && uerr == ErrCheckpointStale, "replay/stale")
+		rt.Cover(small && uerr == ErrRootMismatch, "replay/root-mismatch")
+		rt.Cover(small && uerr == ErrInvalidProof && rt.CpSize(nextRaw) > rt.CpSize(prevRaw) && rt.CpSize(prevRaw) > 0, "replay/invalid-proof")
+		rt.Cover(small && uerr == ErrInvalidProof && rt.CpSize(prevRaw) == 0, "replay/from-size-zero")
+		rt.Cover(small && known && hadPrev && kind == kOther && noSignFail && !rt.Valid(prevRaw, c.origins[li], c.keys[li], nil), "replay/stored-unreadable")
+	}
+
 	// ---- reachability witnesses (vacuity guard) ----
 	rt.Cover(!known, "upd/unknown-log")
 	rt.Cover(uerr == ErrNoValidSignature, "upd/bad-signature")
@@ -447,4 +495,87 @@ func VerifProof(max int) [][]byte { return verifProof(max) }
 // VerifHonestProof exposes the reference prover to other packages.
 func VerifHonestProof(leaves [][]byte, m, n int) ([][]byte, error) {
 	return verifHonestProof(leaves, m, n)
+}
+
+// VerifUpdateTwoSteps runs two consecutive real Updates on ONE witness instance (arbitrary
+// requests, possibly naming different logs) and attaches the step monitors to the second:
+// whatever in-process state the first call leaves behind (caches, memoised verification,
+// counters) must not change what the second one accepts.
+func VerifUpdateTwoSteps() {
+	rt.InstallMetrics()
+	c := verifConfig(rt.Param("logs", 2), rt.Param("signers", 1))
+	store := verifStore()
+	w, err := New(Opts{Persistence: store, Signers: c.signers, KnownLogs: c.logs})
+	if err != nil {
+		rt.Unsupported("New failed")
+	}
+	verifPreload(store, c)
+	// step 1: anything
+	id1, old1, next1 := rt.Str("logID"), rt.U64("oldSize"), rt.Bytes("nextRaw")
+	_, err1 := w.Update(context.Background(), id1, old1, next1, verifProof(rt.Param("maxproof", 1)))
+	// the state the second step starts from
+	pre := verifSnapshot(w, c)
+	id2, old2, next2 := rt.Str("logID"), rt.U64("oldSize"), rt.Bytes("nextRaw")
+	proof2 := verifProof(rt.Param("maxproof", 1))
+	rt.ResetEvents()
+	out, uerr := w.Update(context.Background(), id2, old2, next2, proof2)
+	evs := rt.Events
+	post := verifSnapshot(w, c)
+	li := -1
+	for i, id := range c.ids {
+		if id2 == id {
+			li = i
+		}
+	}
+	accepted := uerr == nil
+	rt.Cover(err1 == nil && accepted && id1 != id2, "two/both-accepted-different-logs")
+	rt.Cover(err1 == nil && accepted && id1 == id2, "two/both-accepted-same-log")
+	rt.Cover(err1 == nil && accepted && rt.Eq(next1, next2) && id1 != id2, "two/same-bytes-replayed-to-another-log")
+	if !accepted {
+		if rt.Prop("C03") {
+			for i := range c.ids {
+				same := pre.has[i] == post.has[i]
+				if same && pre.has[i] {
+					same = rt.Eq(pre.raw[i], post.raw[i])
+				}
+				rt.Assert(same, "C03/state-unchanged-second-step")
+			}
+		}
+		return
+	}
+	if rt.Prop("C02") || rt.Prop("C12") {
+		rt.Assert(li >= 0, "C02/sign-only-known-second-step")
+		if li >= 0 {
+			rt.Assert(rt.Valid(next2, c.origins[li], c.keys[li], nil), "C02/valid-under-configured-key-and-origin-second-step")
+		}
+	}
+	if li < 0 {
+		return
+	}
+	if rt.Prop("C01") && pre.has[li] {
+		verifC01Core(c, li, pre.raw[li], old2, next2, proof2, evs)
+	}
+	if rt.Prop("C12") {
+		for i := range c.ids {
+			if i != li {
+				same := pre.has[i] == post.has[i]
+				if same && pre.has[i] {
+					same = rt.Eq(pre.raw[i], post.raw[i])
+				}
+				rt.Assert(same, "C12/other-logs-untouched-second-step")
+			}
+		}
+	}
+	if rt.Prop("C04") {
+		nSign := 0
+		var se rt.Ev
+		for _, e := range evs {
+			if e.K == "Sign" {
+				nSign++
+				se = e
+			}
+		}
+		rt.Assert(nSign == 1 && rt.Eq(se.B[0], next2) && rt.Eq(se.B[1], out), "C04/second-step-signs-what-it-returns")
+		rt.Assert(post.has[li] && rt.Eq(post.raw[li], out), "C04/second-step-read-after-accept")
+	}
 }
